@@ -956,6 +956,66 @@ func (ru *run) directed(known *[]string) {
 			ru.addDec(tcZ, val, in, d)
 		}
 	}
+	// fixed a52b77b (was finding zero-size-element-roundtrip-decode-fails): []struct{} / [2]struct{} under lexical order +
+	// no duplicates: validated Encode of [{} {}] must be rejected like validated Decode of its bytes 02 is (the validator
+	// took the nil encoding of an empty element for "no previous element"); without validation it round-trips
+	for _, mkSeq := range []func() *Node{
+		func() *Node { return &Node{K: KSlice, Elem: es, T: reflect.SliceOf(es.T)} },
+		func() *Node { return &Node{K: KArr, N: 2, Elem: es, T: reflect.ArrayOf(2, es.T)} },
+	} {
+		for _, rz0 := range []ARules{{NoDup: true, Lex: true}, {NoDup: true}, {Lex: true}} {
+			rz := rz0
+			zq := mkSeq()
+			tcQ := mk(zq, TS{L: ip(0), Rules: &rz}, nil)
+			vq := reflect.New(zq.T).Elem()
+			if zq.K == KSlice {
+				vq.Set(reflect.MakeSlice(zq.T, 2, 2))
+			}
+			for _, val := range []bool{true, false} {
+				b, cls, msg := doEncode(tcQ.sh, vq, val)
+				ru.addEnc(tcQ, val, toCoq(tcQ.eff, vq), b, cls)
+				if cls == "PANIC" {
+					ru.fail("encode-panic", tcQ, "Encode panicked: "+msg, map[string]any{"val": val})
+				}
+				if cls != "" {
+					continue
+				}
+				d := doDecode(tcQ.sh, zq.T, b, val, false)
+				ru.addDec(tcQ, val, b, d)
+				if d.cls != "" || d.n != len(b) || d.ptr.Elem().Len() != 2 {
+					ru.fail("zero-size-duplicates-encode-accepted", tcQ, "Encode accepts two equal zero-size elements but Decode rejects the produced bytes: "+d.cls+" "+d.msg, map[string]any{"val": val, "bytes": hex.EncodeToString(b), "rules": fmt.Sprintf("%+v", rz)})
+				}
+			}
+			ru.addDec(tcQ, true, []byte{2}, doDecode(tcQ.sh, zq.T, []byte{2}, true, false))
+		}
+	}
+	// finding zero-size-element-roundtrip-value: struct{ F *struct{} `optional` } with F present is written as marker 0
+	// and comes back as nil (the format cannot tell a present empty value from an absent one)
+	pes := &Node{K: KPtr, Elem: es, T: reflect.PointerTo(es.T)}
+	osn := &Node{K: KStruct, Fields: []Field{{K: FOpt, N: pes}}}
+	osn.T = reflect.StructOf([]reflect.StructField{{Name: "F", Type: pes.T, Tag: `serix:"zf,optional"`}})
+	tcO := mk(osn, TS{}, nil)
+	tcO.sh.HasZero = true
+	vz := reflect.New(osn.T).Elem()
+	vz.Field(0).Set(reflect.New(es.T))
+	for _, val := range []bool{false, true} {
+		b, cls, msg := doEncode(tcO.sh, vz, val)
+		ru.addEnc(tcO, val, toCoq(tcO.eff, vz), b, cls)
+		if cls != "" {
+			ru.fail("directed-optional-zero-size-encode", tcO, "directed case: Encode failed: "+cls+" "+msg, nil)
+			continue
+		}
+		d := doDecode(tcO.sh, osn.T, b, val, false)
+		ru.addDec(tcO, val, b, d)
+		switch {
+		case d.cls != "" || d.n != len(b):
+			ru.fail("directed-optional-zero-size-decode", tcO, "directed case: Decode failed: "+d.cls+" "+d.msg, map[string]any{"bytes": hex.EncodeToString(b)})
+		case d.ptr.Elem().Field(0).IsNil():
+			if ru.mode == "c01" {
+				addKnown(known, "zero-size-element-roundtrip-value")
+			}
+		}
+	}
 }
 
 func (ru *run) roundtripDirected(tc *tcase, v reflect.Value, name string) {
